@@ -406,6 +406,46 @@ async fn run_behaviour(b: &Value) -> Vec<Value> {
             }
         }
     }
+    // renumber the version ids so that their numeric order is the order of their names in the
+    // object store (hexadecimal), which is the order listings return them in
+    let mut hexes: Vec<(String, i64)> = w.ids.map.iter().map(|(h, i)| (h.clone(), *i)).collect();
+    hexes.sort();
+    let mut ren: HashMap<i64, i64> = HashMap::new();
+    for (rank, (_, old)) in hexes.iter().enumerate() {
+        ren.insert(*old, rank as i64 + 1);
+    }
+    let r = |v: &mut Value| {
+        if let Some(i) = v.as_i64() {
+            if i >= 1 {
+                *v = json!(ren.get(&i).copied().unwrap_or(i));
+            }
+        }
+    };
+    let rname = |n: &mut Value| {
+        if let Some(a) = n.as_array_mut() {
+            for x in a.iter_mut().skip(1) {
+                r(x);
+            }
+        }
+    };
+    for ev in w.lines.iter_mut() {
+        let Some(o) = ev.as_object_mut() else { continue };
+        for k in ["val", "expect", "new", "ver", "latest"] {
+            if let Some(x) = o.get_mut(k) {
+                r(x);
+            }
+        }
+        if let Some(n) = o.get_mut("name") {
+            rname(n);
+        }
+        for k in ["names", "objs"] {
+            if let Some(a) = o.get_mut(k).and_then(|x| x.as_array_mut()) {
+                for n in a.iter_mut() {
+                    rname(n);
+                }
+            }
+        }
+    }
     w.lines
 }
 
